@@ -295,6 +295,25 @@ Theorem C06_bootstrap_unknown_id : forall s p f, b_pending s = Some p -> blookup
 Proof. exact bootstrap_unknown_id. Qed.
 Print Assumptions C06_bootstrap_unknown_id.
 
+(* No crosstalk on the bootstrap connection (several requests in flight, KafkaClient applies addTimeout = cancel):
+   request() creates its Deferred WITHOUT a canceller, so cancelling fails it with CancelledError and leaves the
+   _pending entry in place (Twisted then swallows the next firing of that Deferred).  In every reachable state a frame
+   carrying the id of such a cancelled request fires nothing, does not drop the connection, removes only that entry:
+   every other outstanding request keeps its entry and later gets its own response. *)
+Theorem C06_bootstrap_no_crosstalk : forall evs s o, brun b_init evs = (s, o) ->
+  forall p f h, b_pending s = Some p -> blookup (take 4 f) p = Some h -> In h (b_fired s) ->
+  exists s', b_string_received s f = (s', [])
+    /\ b_pending s' = Some (bremove (take 4 f) p) /\ b_fired s' = b_fired s
+    /\ (forall k' h', In (k', h') p -> k' <> take 4 f -> In (k', h') (bremove (take 4 f) p)).
+Proof. exact bootstrap_no_crosstalk. Qed.
+Print Assumptions C06_bootstrap_no_crosstalk.
+
+Theorem C06_bootstrap_cancel_keeps_entry : forall s h, (h < length (b_reqs s))%nat -> ~ In h (b_fired s) ->
+  exists s', bstep s (BCancel h) = (s', [BDef h BFailCancelled])
+    /\ b_pending s' = b_pending s /\ In h (b_supp s') /\ b_fired s' = h :: b_fired s.
+Proof. exact bootstrap_cancel_keeps_entry. Qed.
+Print Assumptions C06_bootstrap_cancel_keeps_entry.
+
 (* ------------------------------------------------------------------ non-vacuity *)
 (* three chunks cutting two frames inside the prefix, inside the id and inside the next prefix *)
 Example reassembly_nonvacuous :
@@ -336,6 +355,14 @@ Example client_chunking_nonvacuous :
   /\ snd (spec_frames (abs (s_t s)) [[0;0;0;1;70]; [0;0;0;9]; [0;0;0;2]]) = [ODef 1 (Succ [0;0;0;2])]
   /\ abs (s_t s) 1 = Some (0%nat, true) /\ abs (s_t s) 2 = Some (1%nat, false).
 Proof. vm_compute. repeat split. Qed.
+
+(* two requests in flight, the first is cancelled (timeout), its late response arrives, then the second one's: the
+   second request gets its own response, nothing is dropped *)
+Example bootstrap_cancel_nonvacuous :
+  snd (brun b_init [BReq [0;3;0;0;0;0;0;1]; BReq [0;3;0;0;0;0;0;2]; BCancel 0; BData [0;0;0;5;0;0;0;1;65];
+                    BData [0;0;0;5;0;0;0;2;66]; BData [0;0;0;4;0;0;0;1]])
+  = [BWrite 0 [0;3;0;0;0;0;0;1]; BWrite 1 [0;3;0;0;0;0;0;2]; BDef 0 BFailCancelled; BDef 1 (BSucc [0;0;0;2;66]); BLose].
+Proof. vm_compute. reflexivity. Qed.
 
 Example bootstrap_nonvacuous :
   snd (brun b_init [BReq [0;3;0;0;0;0;0;1;255;255]; BData [0;0;0;5;0;0]; BData [0;1;66];
